@@ -27,5 +27,5 @@ CONSTANTS
  MaxAdds = 4
  MCIds <- IdsP
  MCNames <- NamesAll
-INVARIANTS Budget
+INVARIANTS TotalIsSum
 CHECK_DEADLOCK FALSE
